@@ -97,9 +97,14 @@ GoodPfx == CHOOSE p \in Pfx : p.txt = "did:m:"
 
 Structured == {m \o p \o q \o f : m \in Mids, p \in Paths, q \in Queries, f \in Frags}
 
-UrlRows == [kind : {"url"}, pfx : {GoodPfx}, body : Strs(MaxLen) \cup Structured]
+\* what follows a percent-encoded octet: every class, another (well- or ill-formed) octet, or nothing -- in every component
+PctTails == {<<>>} \cup {<<c>> : c \in Sigma} \cup {<<"%", "g", "1">>, <<"%", "1">>, <<"%", "1", "f">>}
+PctSegs == {lead \o <<"%", "1", "f">> \o tl : lead \in {<<>>, <<"/">>, <<"?">>, <<"#">>}, tl \in PctTails}
+PctBodies == {<<"g">> \o sg \o rest : sg \in PctSegs, rest \in {<<>>, <<"#", "g">>}}
+
+UrlRows == [kind : {"url"}, pfx : {GoodPfx}, body : Strs(MaxLen) \cup Structured \cup PctBodies]
            \cup [kind : {"url"}, pfx : Pfx, body : {<<"g">>, <<"g", "#", "g">>, <<>>}]
-SetRows == [kind : {"set"}, base : Bases, which : {"path", "query", "fragment", "method_name", "method_id", "join"}, seg : Strs(SegLen)]
+SetRows == [kind : {"set"}, base : Bases, which : {"path", "query", "fragment", "method_name", "method_id", "join"}, seg : Strs(SegLen) \cup PctSegs]
 
 Evaluate(r) ==
   CASE r.kind = "url" -> UrlOutcome(r.pfx, r.body)
